@@ -284,6 +284,9 @@ func (c *Ctx) App(name string, ret *Sort, args ...*Term) *Term {
 }
 
 func (t *Term) IsConst() bool { return t.Op == OConst }
+
+// HasBound reports whether t mentions a bound variable that is not bound inside t.
+func (t *Term) HasBound() bool { return t.hasBound }
 func (t *Term) IsTrue() bool  { return t.Op == OConst && t.Sort == Bool && t.Val == 1 }
 func (t *Term) IsFalse() bool { return t.Op == OConst && t.Sort == Bool && t.Val == 0 }
 
